@@ -395,6 +395,18 @@ impl Run {
         if self.world.locks.values().any(|l| l.holder == me || l.queue.iter().any(|(w, _)| *w == me)) {
             self.ended_holding_or_waiting += 1;
         }
+        // one more round trip, then nothing unrequested may have arrived on this session: a waiting
+        // acquireLock is not answered before the model hands the lock over, and no answer comes twice
+        cl.request("get", json!({"key": "c07w/ping"}), &self.names).await?;
+        if !cl.inbox.is_empty() {
+            return Err(Failure::new(
+                "c07w.unrequested_message",
+                format!("client {c}: only the answers the model predicts (still waiting: {:?})", cl.pending),
+                format!("{:?}", cl.inbox.iter().map(|m| m.to_string()).collect::<Vec<_>>()),
+            )
+            .at(self.step)
+            .sig(json!({"obs": "c07w.unrequested_message"})));
+        }
         let mut sess = cl.s.take().expect("open");
         let trigger: Option<Vec<u8>> = match reason {
             EndReason::Close | EndReason::HalfClose | EndReason::Reset => None,
@@ -832,6 +844,49 @@ pub fn part(check: &mut Check, cfg: &RunCfg) {
     check.add_part(
         "wire",
         "whole server in process with a TCP and a unix-socket endpoint; 2-4 client sessions (transport generated per session) set/cset/delete keys of a colliding pool, register and re-register grave goods (overlapping patterns, other clients' and server-set $SYS keys) and last wills (CAS-protected and $SYS targets), lock / wait for / release two locks, and end in a generated order for a generated reason (socket closed, half closed, reset, not JSON, unknown message, null, invalid UTF-8, unsupported protocol version, refused authorization request); after every session end a standing observer session compares, against the reference model's session-end procedure: the user keys and their CAS versions, the $SYS/clients subtree and client count, the per-key event sequences of its # subscription up to a marker, the acknowledgement of every waiting acquireLock the model hands the lock to, and which locks are free; non-trivial = a session ended with registrations and (while holding or waiting for a lock, or through an error path of the transport); distinct = case",
+        false,
+        agg,
+    );
+    if let Some(v) = v {
+        check.violate("wire", &v.case, v.failure);
+    }
+}
+
+fn lock_op() -> BoxedStrategy<WOp> {
+    let c = || 0..4u8;
+    prop_oneof![
+        1 => (c(), any::<u16>(), any::<u8>()).prop_map(|(c, key, value)| WOp::Set { c, key, value }),
+        4 => (c(), 0..2u8).prop_map(|(c, key)| WOp::Lock { c, key }),
+        6 => (c(), 0..2u8).prop_map(|(c, key)| WOp::Acquire { c, key }),
+        4 => (c(), 0..2u8).prop_map(|(c, key)| WOp::Release { c, key }),
+        2 => (c(), reason()).prop_map(|(c, reason)| WOp::End { c, reason }),
+    ]
+    .boxed()
+}
+
+/// C06 over the wire: the same driver with lock traffic only (protocol/v1.rs: the waiting
+/// acquireLock tasks, their acknowledgement, cancellation at session end)
+pub fn lock_part(check: &mut Check, cfg: &RunCfg) {
+    let n = cfg.cases(700, 300_000);
+    let max_ops = cfg.tier.pick(30, 50);
+    let strat = move || {
+        (
+            proptest::collection::vec(prop_oneof![Just(Transport::Tcp), Just(Transport::Unix)], 2..=4),
+            proptest::collection::vec(lock_op(), 1..=max_ops),
+            proptest::collection::vec(reason(), 4),
+        )
+            .prop_map(|(transports, ops, tail)| WireCase { transports, ops, tail })
+            .boxed()
+    };
+    let (agg, v) = run_prop(cfg, "wire", n, strat, |case: &WireCase| {
+        let mut rep = check_case(case)?;
+        let handovers = rep.counters.iter().any(|(k, n)| *k == "lock_handovers_checked" && *n > 0);
+        rep.nontrivial = handovers && rep.classes.contains(&"session_ended_holding_or_waiting_for_a_lock");
+        Ok(rep)
+    });
+    check.add_part(
+        "wire",
+        "whole server in process with a TCP and a unix-socket endpoint; 2-4 socket sessions lock / acquireLock / releaseLock two keys and end for generated reasons in a generated order; oracle (lock queue of the reference model): lock and releaseLock are answered ack / err as the model's holder says, a waiting acquireLock is acknowledged when (and only when: after one more round trip nothing unrequested may be in a session's inbox) the model hands the lock to its client, hand-over follows the order of first requests, a session that ends frees what it holds and leaves the queue, and after every session end an observer can lock exactly the keys the model says are free; non-trivial = at least one hand-over to a waiting client was checked and a session ended while holding or waiting; distinct = case",
         false,
         agg,
     );
